@@ -24,6 +24,32 @@ def flat(a):
     return sorted(int(x) for x in np.asarray(a).flatten().tolist())
 
 
+LAYOUT_CHAINS = {2: ['D4', 'Z1', 'D5'], 3: ['D7', 'Z3', 'D4', 'Z1', 'D5']}
+DEVICE_INDEX = {'D7': 6, 'Z3': 12, 'D4': 3, 'Z1': 10, 'D5': 4}     # a caller-supplied device-wide channel map (not 0..N-1)
+
+
+def describe_variant(variant, d):
+    """The ways a description can be obtained: a chain of a given length (with / without refocusing), a sub-chain of a shipped
+    layout with the default channel map, the same with a caller-supplied device-wide channel map."""
+    from qce_circuit.connectivity.intrf_channel_identifier import QubitIDObj
+    from qce_circuit.library.repetition_code.repetition_code_connectivity import Repetition9Code
+    if variant == 'chain':
+        return RepetitionCodeDescription.from_chain(2 * d - 1)
+    if variant == 'chain/no-refocusing':
+        return RepetitionCodeDescription.from_chain(2 * d - 1, qubit_refocusing=False)
+    ids = [QubitIDObj(n) for n in LAYOUT_CHAINS[d]]
+    if variant == 'layout':
+        return RepetitionCodeDescription.from_connectivity(ids, Repetition9Code())
+    if variant == 'layout/no-refocusing':
+        return RepetitionCodeDescription.from_connectivity(ids, Repetition9Code(), qubit_refocusing=False)
+    if variant == 'layout/device-map':
+        return RepetitionCodeDescription.from_connectivity(ids, Repetition9Code(), qubit_index_map={QubitIDObj(n): DEVICE_INDEX[n] for n in LAYOUT_CHAINS[d]})
+    raise ValueError(variant)
+
+
+VARIANTS = ('chain/no-refocusing', 'layout', 'layout/no-refocusing', 'layout/device-map')
+
+
 class AgreeFamily(Family):
     def __init__(self, R, ds):
         self.R, self.ds = R, tuple(ds)
@@ -44,11 +70,12 @@ class AgreeFamily(Family):
         return {'R': self.R, 'distances': list(self.ds), 'lists': sum(1 for _ in rounds_lists(self.R))}
 
     def run(self, case):
-        rl, d, pat = case
+        rl, d, pat = case[:3]
+        variant = case[3] if len(case) > 3 else 'chain'
         res = Res()
         states = [S.ZERO if pat == 0 else S.ONE if pat == 1 else (S.ONE if i % 2 else S.ZERO) for i in range(d)]
         init = InitialStateContainer.from_ordered_list(states)
-        desc = RepetitionCodeDescription.from_chain(2 * d - 1)
+        desc = describe_variant(variant, d)
         # the kernel is built first, from the description's own identifier lists (as an analysis script would do),
         # and must leave its inputs alone; the circuit is then built from the same description
         rounds_in = list(rl)
@@ -96,10 +123,35 @@ class AgreeFamily(Family):
         return res
 
 
+class DescriptionFamily(AgreeFamily):
+    """The same comparison for the other ways of obtaining a description, on a smaller box of round lists, plus two deep blocks."""
+
+    def __init__(self, R, ds):
+        super().__init__(R, ds)
+        self.name = 'kernel-vs-circuit/descriptions(R=%d)' % R
+        self.rule = ('all lists of distinct round counts from {0..%d} x distance in %r x descriptions %r (alternating initial state), and the chain description with one block of 28 rounds'
+                     % (R, list(ds), list(VARIANTS)))
+
+    def shards(self, tier):
+        return [(d, v) for d in self.ds for v in VARIANTS] + [('deep', 'chain')]
+
+    def cases(self, tier, shard):
+        d, v = shard
+        if d == 'deep':
+            yield ((28,), 2, 2, 'chain')
+            yield ((1, 28), 2, 2, 'chain')
+            return
+        for rl in rounds_lists(self.R):
+            yield (rl, d, 2, v)
+
+    def describe(self, tier):
+        return {'R': self.R, 'distances': list(self.ds), 'variants': list(VARIANTS), 'lists': sum(1 for _ in rounds_lists(self.R))}
+
+
 def families(tier):
     if tier == 'quick':
-        return [AgreeFamily(4, (2,)), AgreeFamily(3, (3,))]
-    return [AgreeFamily(5, (2,)), AgreeFamily(4, (3,)), AgreeFamily(3, (4,))]
+        return [AgreeFamily(4, (2,)), AgreeFamily(3, (3,)), DescriptionFamily(3, (2, 3))]
+    return [AgreeFamily(5, (2,)), AgreeFamily(4, (3,)), AgreeFamily(3, (4,)), DescriptionFamily(4, (2, 3))]
 
 
 def signature(f):
